@@ -57,7 +57,7 @@ example : Tiles 0 [⟨[], 0, 5⟩, ⟨[], 5, 7⟩] ∧ tileEnd 0 [⟨[], 0, 5⟩
 /-- **regenerated obligation**: `desync verify-index` hands every invocation to `VerifyIndex` with the worker
     count the user gave; no path returns success before that call -/
 theorem gen_cmd_delegates :
-    Gen.cmdVerifyIndexShape = ["call(ctx,dataFile,idx,opt.n,pb)"] ∧
+    Gen.cmdVerifyIndexShape = ["call(opt.n)"] ∧
     Gen.site_shape_cmdVerifyIndexShape_found = true := by
   decide
 
